@@ -68,9 +68,10 @@ class Const(V):
 class Sym(V):
     """Unknown value of a known tag with an identity."""
 
-    def __init__(self, tag, name):
+    def __init__(self, tag, name, lang=None):
         self._tag = tag
         self.name = name
+        self.lang = lang        # for text: a regex every possible value matches in full (e.g. a token lexeme)
 
     @property
     def tag(self):
